@@ -3,7 +3,7 @@ from os import path
 from armulator.armv6.address_descriptor import AddressDescriptor
 from armulator.armv6.arm_exceptions import *
 from armulator.armv6.bits_ops import substring, chain, bit_at, lower_chunk, set_substring, set_bit_at, align, \
-    big_endian_reverse, is_ones, to_signed, add
+    big_endian_reverse, is_ones, to_signed, add, sub
 from armulator.armv6.configurations import *
 from armulator.armv6.enums import *
 from armulator.armv6.memory_attributes import MemoryAttributes, MemType
@@ -339,7 +339,7 @@ class ArmV6:
                 if self.registers.get(n) == 0:
                     self.registers.set_lr(self.registers.get_pc() | 0b1)
                     self.registers.cpsr.it = 0b00000000
-                    self.branch_write_pc(self.registers.teehbr - 4)
+                    self.branch_write_pc(sub(self.registers.teehbr, 4, 32))
                     raise EndOfInstruction("NullCheckIfThumbEE")
 
     def fcse_translate(self, va):
@@ -1498,7 +1498,7 @@ class ArmV6:
             if self.registers.cpsr.e:
                 value = big_endian_reverse(value, size)
             for i in range(size):
-                self.mem_a_with_priv_set(address + i, 1, privileged, False, substring(value, 8 * i + 7, 8 * i))
+                self.mem_a_with_priv_set(add(address, i, 32), 1, privileged, False, substring(value, 8 * i + 7, 8 * i))
 
     def mem_u_with_priv_get(self, address, size, privileged):
         value = 0
@@ -1516,7 +1516,7 @@ class ArmV6:
         else:
             for i in range(size):
                 value = set_substring(value, 8 * i + 7, 8 * i,
-                                      self.mem_a_with_priv_get(address + i, 1, privileged, False))
+                                      self.mem_a_with_priv_get(add(address, i, 32), 1, privileged, False))
             if self.registers.cpsr.e:
                 value = big_endian_reverse(value, size)
         return value
